@@ -314,6 +314,9 @@ func (r *bufRun) rangeOp(c int, bounded bool, script []int) {
 
 func init() {
 	register("BUFK1", func(h *hctx) {
+		for s := h.pi("salt", 0); s > 0; s-- {
+			h.rng.Int63() // different properties explore different programs from the same seed
+		}
 		for i := 0; i < h.n; i++ {
 			bufK1Case(h, i)
 		}
